@@ -1048,7 +1048,7 @@ def decide_sequence(ps, steps):
 def check_sequences(ctx, rep, metas):
     rng = ctx.rng('sequences')
     pool = [m for m in metas if m[1] is None]
-    sample = rng.sample(pool, min(len(pool), 40 if ctx.quick else 200))
+    sample = rng.sample(pool, min(len(pool), 24 if ctx.quick else 200))
     sample.insert(0, ([], None))
     n = 0
     for ps, _ in sample:
